@@ -121,8 +121,9 @@ func c01RFailCorpus() []any {
 		// the upgrade must not go on from the failed revision 2
 		out = append(out, c01Hist(b, in, f2, rf(mkOp("upgrade", 3, eng.Flags{}, "a", "b"), 1), mkOp("upgrade", 4, eng.Flags{}, "a")))
 	}
-	// K14: 1 pruned away (2:superseded 3:deployed); install whose name check cannot read the history: it is taken for
-	// "the name is free", revision 1 is created and deployed next to revision 3, the install reports success
+	// K14 (repaired, ac81746): 1 pruned away (2:superseded 3:deployed); install whose name check cannot read the history.
+	// Before the repair that was taken for "the name is free", revision 1 was created and deployed next to revision 3 and the
+	// install reported success; now the install returns the read error and the ledger stays 2:superseded 3:deployed
 	out = append(out, c01Hist("secret", in, mkOp("upgrade", 2, eng.Flags{}, "a"), mkOp("upgrade", 3, eng.Flags{MaxHistory: 2}, "a"),
 		rf(mkOp("install", 4, eng.Flags{}, "a"), 0)))
 	return out
@@ -152,8 +153,9 @@ func c01GenRFail(r *rand.Rand) eng.History {
 }
 
 // c01LostNameCheck (K14): an install whose history lookup — read 0, Install.availableName; with --replace also read 1,
-// Install.replaceRelease — was hit by the read fault while the release has a history: both functions return nil on ANY error
-// of Releases.History, the install goes on as if the name were free and asks the driver to create revision 1
+// Install.replaceRelease — was hit by the read fault while the release has a history.  Before the repair (ac81746) both
+// functions returned nil on ANY error of Releases.History, the install went on as if the name were free and asked the
+// driver to create revision 1; now they return every error but not-found
 func c01LostNameCheck(op *eng.Op, so eng.StepObs, prev []eng.LedgerRow) bool {
 	if op == nil || op.Kind != "install" || op.RFail == nil || !so.RFailHit || len(prev) == 0 {
 		return false
